@@ -48,6 +48,107 @@ var c18Setup = []string{
 	"CREATE TABLE measurements (relative_humidity_percent INT, station_identifier_code VARCHAR(12), a INT)",
 	"INSERT INTO measurements VALUES (40, 'st-1', 1), (60, 'st-2', 2)",
 	"INSERT INTO measurements (a) VALUES (3)",
+	// 24 columns, for statements with long lists (see c18Wide)
+	"CREATE TABLE wide (" + c18WideCols() + ")",
+	"INSERT INTO wide VALUES (" + c18WideRow(1) + "), (" + c18WideRow(2) + "), (" + c18WideRow(1) + ")",
+	"INSERT INTO wide (c0, c5, c23) VALUES (4, 'only', 9)",
+}
+
+// the 24 columns of table wide: INT, VARCHAR, BOOLEAN, BIGINT in turn
+func c18WideCols() string {
+	var cols []string
+	for i := 0; i < 24; i++ {
+		cols = append(cols, fmt.Sprintf("c%d %s", i, []string{"INT", "VARCHAR(8)", "BOOLEAN", "BIGINT"}[i%4]))
+	}
+	return strings.Join(cols, ", ")
+}
+
+func c18WideLit(i, seed int) string {
+	return []string{fmt.Sprint(seed + i), fmt.Sprintf("'s%d'", seed), []string{"true", "false"}[seed%2], fmt.Sprint(1000*seed + i)}[i%4]
+}
+
+func c18WideRow(seed int) string {
+	var vals []string
+	for i := 0; i < 24; i++ {
+		vals = append(vals, c18WideLit(i, seed))
+	}
+	return strings.Join(vals, ", ")
+}
+
+// c18Wide: statements whose lists are long - many grouping columns, sort keys,
+// select-list items, assignments, named columns, joined tables -, over tables
+// that exist, so that they get past name resolution and are executed.
+func c18Wide(rt *rapid.T) string {
+	m := rapid.SampledFrom([]int{4, 5, 6, 7, 8, 9, 12, 16, 17, 24}).Draw(rt, "wide_n")
+	perm := rapid.Permutation([]int{0, 1, 2, 3, 4, 5, 6, 7, 8, 9, 10, 11, 12, 13, 14, 15, 16, 17, 18, 19, 20, 21, 22, 23}).Draw(rt, "wide_perm")[:m]
+	var cols []string
+	for _, i := range perm {
+		cols = append(cols, fmt.Sprintf("c%d", i))
+	}
+	switch rapid.IntRange(0, 6).Draw(rt, "wide_kind") {
+	case 0: // GROUP BY over m columns, aggregates anywhere in the select list
+		items := append([]string{}, cols...)
+		for k := rapid.IntRange(1, 3).Draw(rt, "wide_aggs"); k > 0; k-- {
+			a := rapid.SampledFrom([]string{"count(*)", "avg(c0)", "count(c1)", "avg(c3)", "avg(c1)", "count(c2)"}).Draw(rt, "wide_agg")
+			at := rapid.IntRange(0, len(items)).Draw(rt, "wide_at")
+			items = append(items[:at], append([]string{a}, items[at:]...)...)
+		}
+		gb := rapid.Permutation(cols).Draw(rt, "wide_gperm")
+		return "SELECT " + strings.Join(items, ", ") + " FROM wide GROUP BY " + strings.Join(gb, ", ")
+	case 1: // ORDER BY over m keys
+		var keys []string
+		for _, c := range cols {
+			keys = append(keys, c+rapid.SampledFrom([]string{"", " ASC", " DESC"}).Draw(rt, "wide_dir"))
+		}
+		return "SELECT * FROM wide ORDER BY " + strings.Join(keys, ", ")
+	case 2: // a long select list of columns, comparisons and literals, some aliased
+		var items []string
+		for i, c := range cols {
+			switch rapid.IntRange(0, 4).Draw(rt, "wide_item") {
+			case 0:
+				items = append(items, c+" = "+cols[(i+1)%len(cols)])
+			case 1:
+				items = append(items, fmt.Sprintf("%s AS x%d", c, i))
+			case 2:
+				items = append(items, fmt.Sprint(i))
+			default:
+				items = append(items, c)
+			}
+		}
+		return "SELECT " + strings.Join(items, ", ") + " FROM wide WHERE c0 > 0 ORDER BY " + cols[0]
+	case 3: // UPDATE with m assignments (now and then one of the wrong type)
+		var sets []string
+		for _, i := range perm {
+			if rapid.IntRange(0, 15).Draw(rt, "wide_bad") == 0 {
+				sets = append(sets, fmt.Sprintf("c%d = %s", i, c18WideLit(i+1, 3)))
+			} else {
+				sets = append(sets, fmt.Sprintf("c%d = %s", i, c18WideLit(i, 3)))
+			}
+		}
+		return "UPDATE wide SET " + strings.Join(sets, ", ") + " WHERE c0 = " + fmt.Sprint(rapid.IntRange(0, 5).Draw(rt, "wide_key"))
+	case 4: // INSERT naming m columns, two rows
+		var v1, v2 []string
+		for _, i := range perm {
+			v1 = append(v1, c18WideLit(i, 5))
+			v2 = append(v2, c18WideLit(i, 6))
+		}
+		return "INSERT INTO wide (" + strings.Join(cols, ", ") + ") VALUES (" + strings.Join(v1, ", ") + "), (" + strings.Join(v2, ", ") + ")"
+	case 5: // a chain of joins
+		k := rapid.IntRange(3, 7).Draw(rt, "wide_joins")
+		var sb strings.Builder
+		sb.WriteString("SELECT count(*), avg(x0.a) FROM t1 x0")
+		for j := 1; j < k; j++ {
+			jt := rapid.SampledFrom([]string{"JOIN", "LEFT JOIN", "RIGHT JOIN", "INNER JOIN"}).Draw(rt, "wide_jt")
+			fmt.Fprintf(&sb, " %s %s x%d ON x%d.a = x%d.a", jt, rapid.SampledFrom([]string{"t1", "t0", "t2", "orders"}).Draw(rt, "wide_jtbl"), j, j-1, j)
+		}
+		return sb.String()
+	}
+	// DELETE with a long conjunction over many columns
+	var terms []string
+	for _, i := range perm {
+		terms = append(terms, fmt.Sprintf("c%d = %s", i, c18WideLit(i, 2)))
+	}
+	return "DELETE FROM wide WHERE " + strings.Join(terms, " AND ")
 }
 
 var c18Targeted = []string{
@@ -123,6 +224,9 @@ func c18Gen(rt *rapid.T) c18Case {
 		}
 		if rapid.IntRange(0, 39).Draw(rt, "longcond") == 21 {
 			q = c18LongCond(rt)
+		}
+		if rapid.IntRange(0, 11).Draw(rt, "widestmt") == 5 {
+			q = c18Wide(rt)
 		}
 		c.SQL = append(c.SQL, q)
 	}
